@@ -89,7 +89,7 @@ def sweep_values(nq, nt):
 
 REPLICAS = [{"TZ": "UTC", "GOMAXPROCS": "1"},
             {"TZ": "Europe/Warsaw", "GOMAXPROCS": "8", "VERIF_QUERIES": "1", "VERIF_CRISIS_SKIP": "1"},
-            {"TZ": "America/St_Johns", "GOMAXPROCS": "3", "VERIF_INV_CHECK_PERIOD": "1"}]
+            {"TZ": "America/St_Johns", "GOMAXPROCS": "3", "VERIF_INV_CHECK_PERIOD": "1", "VERIF_TELEMETRY": "1"}]
 
 PROPS = {
     "C01": {
@@ -211,7 +211,7 @@ PROPS = {
     "C14": {
         "title": "Failed transfers in the distributor lose nothing and are made up later",
         "model": "Distributor.v: bank with fault oracle (transfer, burn, failed_debit), prepare_source, payout; Ledger.v: the credited-amounts machine a_block, block_split",
-        "runs": [distr("faults", 220, 8000), distr("", 120, 4000)],
+        "runs": [distr("faults", 220, 8000), distr("", 120, 4000), distr("updates", 120, 4000)],
         "preds": ["C14.", "C03."],
         "rule": DISTR_RULE + "; C14: fault mode injects failures on ~30% of the bank calls for 2-11 blocks, then runs fault-free blocks and compares final balances with a fault-free twin run (acyclic graphs)",
         "partial": ["the 'made up later' theorem (C14_failures_never_change_what_an_account_is_credited) covers failing payouts and burns; failing sweeps of "
@@ -255,7 +255,7 @@ PROPS = {
     "C19": {
         "title": "Reported inflation equals the actual annualised emission rate",
         "model": "Minter.v: calc_inflation, current_inflation",
-        "runs": [minter(150, 6000)],
+        "runs": [minter(260, 8000)],
         "preds": ["C19."],
         "rule": MINTER_RULE + "; C19 additionally compares the inflation reported after a block with what the next block inside the same period/step minted",
         "partial": ["the numeric theorems compare the schedule's emission in 10^-18 units with rate*supply*interval/year; the integer amount a block actually "
